@@ -408,7 +408,7 @@ inline std::string match_form(const xdb::Form& G, const XInst& x, const uint8_t*
       }
       if (!c.have(size_t(dispsz))) XT_FAIL("truncated displacement");
       int N = 1;
-      if (evex && dispsz == 1 && abits != 16) {
+      if (evex && dispsz == 1) {      // disp8*N applies to 16-bit addressing as well (SDM 2.7.5; LLVM and libopcodes both decode it scaled)
         int sz = m.bcst > 0 ? dM->bcstSize : dM->memSize;
         if (is_vec(m.index.rc)) sz = G.elementSize;
         if (G.tupleType == "t1s" && m.bcst == 0) {
